@@ -15,6 +15,10 @@ Next ==
      /\ Report("UniqueRule", Cardinality(SetOf(e.aids)) = Len(e.aids) /\ 0 \notin SetOf(e.aids))
      /\ Report("UniqueRule", \A k \in 1..Len(e.iids) : Cardinality(SetOf(e.iids[k])) = Len(e.iids[k]) /\ 0 \notin SetOf(e.iids[k]))
      /\ Report("StableRule", e.aids = e.aids2 /\ e.iids = e.iids2)
+     \* the ids do not depend on how often the accessories were added to a container before
+     /\ Report("StableRule", e.iids3 = e.iids)
+     \* a service added to an accessory that is already in a container gets ids too
+     /\ Report("UniqueRule", Cardinality(SetOf(e.late)) = Len(e.late) /\ 0 \notin SetOf(e.late))
      /\ Report("WellFormedRule", e.jsonok /\ e.jaids = e.aids /\ e.jiids = e.iids)
      /\ Report("WellFormedRule", \A k \in 1..Len(e.chars) : e.chars[k].hasiid /\ e.chars[k].hastype /\ e.chars[k].hasformat
                                      /\ e.chars[k].perms # <<>> /\ SetOf(e.chars[k].perms) \subseteq ValidPerms)
